@@ -222,12 +222,13 @@ REGISTRY["C10"] = {
                    "keeps them, attributing failures only on matching pattern and symptom."),
     "level_note": EVENT_TRUST + " Because of the three listed findings the main campaign covers only the part of the property the engine can currently satisfy.",
     "technique": "rapid property test over generated event/answer scripts incl. event-vs-answer races, lock-step differential against the token-game model",
-    "rule": ("Distinct = descriptor. Non-trivial = at least one boundary event fired (model) or >=2 events delivered."),
+    "rule": ("Distinct = descriptor. Non-trivial = at least one boundary event fired (model) or >=2 events delivered. TestC10LateEvent: the boundary's event is delivered from the subscriber the moment it receives the host's ActiveBoundaryTrace{Start:false}; it must not react (all cases non-trivial)."),
     "assumptions": ["main campaign: boundary events are non-interrupting and each fires exactly once while the host waits (findings C10-F1, C10-F2, C10-F3 constructed around)"],
     "tests": [
         {"name": "TestC10Boundary", "checks": {"quick": 100, "thorough": 3000}, "shards": {"quick": 12, "thorough": 16}, "gomaxprocs": [4, 2, 16, 1]},
         {"name": "TestC10Boundary", "label": "TestC10Boundary-unrestricted", "env": {"VERIF_UNRESTRICTED": "1"},
          "checks": {"quick": 100, "thorough": 2000}, "shards": {"quick": 4, "thorough": 8}},
+        {"name": "TestC10LateEvent", "checks": {"quick": 250, "thorough": 5000}, "shards": {"quick": 8, "thorough": 16}, "gomaxprocs": [4, 2, 16, 1]},
     ],
 }
 
